@@ -124,3 +124,10 @@ Example C14_example :
   snd (crun (cst0 2) [ACreate 0 7; ACreate 1 7; AStep 0; AStep 1; AStep 0; AStep 1; AStep 0; AStep 1; AList 0]) =
   [CRNone; CRNone; CRNone; CRNone; CRNone; CRFailed; CRCreated 10001; CRNone; CRList [(7, 10001)]].
 Proof. vm_compute. reflexivity. Qed.
+
+(* every remaining property theorem of this file *)
+Print Assumptions C14_restore_switch.
+Print Assumptions C14_create_existing_refused.
+Print Assumptions C14_create_sequence_step_ok.
+Print Assumptions C14_delete_reads_positive_version.
+Print Assumptions C14_restore_does_not_resurrect.
